@@ -296,26 +296,39 @@ def func_params(fn: ast.AST) -> List[str]:
 
 def local_names(fn: ast.AST) -> List[str]:
     """Parameters and every name stored in the function body (not nested scopes)."""
+    cached = getattr(fn, "_jv_locals", None)
+    if cached is not None:
+        return cached
     out = list(func_params(fn))
+    found = []
     for n in walk_local(fn):
-        if isinstance(n, ast.Name) and isinstance(n.ctx, (ast.Store, ast.Del)) and n.id not in out:
-            out.append(n.id)
-        elif isinstance(n, ast.ExceptHandler) and n.name and n.name not in out:
-            out.append(n.name)
+        if isinstance(n, ast.Name) and isinstance(n.ctx, (ast.Store, ast.Del)):
+            found.append((n.lineno, n.col_offset, n.id))
+        elif isinstance(n, ast.ExceptHandler) and n.name:
+            found.append((n.lineno, n.col_offset, n.name))
+    for _, _, name in sorted(found):
+        if name not in out:
+            out.append(name)
+    try:
+        fn._jv_locals = out  # type: ignore[attr-defined]
+    except Exception:  # pragma: no cover
+        pass
     return out
 
 
 class _Renamer(ast.NodeTransformer):
+    """Alpha-renames locals by their index in the function (parameters first, then
+    order of first binding), so two constructs of one function that differ only in
+    which local they use keep different keys."""
+
     def __init__(self, locs: Iterable[str]):
-        self.locs = set(locs)
         self.map: Dict[str, str] = {}
+        for name in locs:
+            if name not in ("self", "cls") and name not in self.map:
+                self.map[name] = f"_v{len(self.map)}"
 
     def _n(self, name: str) -> str:
-        if name in self.locs and name not in ("self", "cls"):
-            if name not in self.map:
-                self.map[name] = f"_v{len(self.map)}"
-            return self.map[name]
-        return name
+        return self.map.get(name, name)
 
     def visit_Name(self, node: ast.Name) -> ast.AST:
         return ast.copy_location(ast.Name(id=self._n(node.id), ctx=node.ctx), node)
